@@ -5,7 +5,8 @@ cd /verif
 seeds="${*:-1 2 3}"
 for sd in $seeds; do
   for P in C06 C14 C15 C16 C19 C20; do
-    VERIF_SEED=$sd VERIF_EVIDENCE_DIR=/dev/shm/simgriffe-soak-evidence ./check $P --quiet 2>&1 | grep -E "^(violation|VIOLATION|HARNESS|C[0-9]+ quick)" | cut -c1-240 | sed "s/^/seed=$sd /"
+    out=$(VERIF_SEED=$sd VERIF_EVIDENCE_DIR=/dev/shm/simgriffe-soak-evidence ./check $P --quiet 2>&1); rc=$?
+    echo "$out" | grep -E "^(violation|VIOLATION|HARNESS|C[0-9]+ quick)" | cut -c1-240 | sed "s/^/seed=$sd rc=$rc /"
   done
 done
 rm -rf /dev/shm/simgriffe-soak-evidence
